@@ -145,9 +145,23 @@ def show_seq(s: tuple) -> str:
     return ' + '.join(parts)
 
 
+_COORD = None
+
+
+def _is_coord(v: Any) -> bool:
+    """one of the scenario's coordinates start_j / end_j (valid positions of their blocks by precondition)"""
+    return isinstance(v, Lin) and v.const == 0 and len(v.terms) == 1 and v.terms[0][1] == 1 and v.terms[0][0] in (('sym', 'start_j'), ('sym', 'end_j'))
+
+
 def seq_len(s: tuple) -> Any:
     total: Any = 0
     for p in s:
+        if p[0] == 'slice' and len(p[1]) == 1 and p[1][0][0] == 'atom' and (p[2] is None or _is_coord(p[2])) and (p[3] is None or _is_coord(p[3])):
+            # X[lo:hi] with lo / hi valid positions of X: hi - lo elements
+            hi = p[3] if p[3] is not None else Lin(((('len', (p[1][0],)), 1),), 0)
+            lo = p[2] if p[2] is not None else 0
+            total = add(total, add(hi, lo, -1))
+            continue
         total = add(total, Lin(((('len', (p,)), 1),), 0))
     return total
 
@@ -194,6 +208,12 @@ class TokensRef:
 class TokElem:
     block: Any              # Block or None (a token of the inserted sequence)
     idx: Any                # RangeVar or None
+
+
+@dataclasses.dataclass(frozen=True)
+class SeqElem:
+    """loop variable over a symbolic token sequence: stands for every token of every piece"""
+    pieces: tuple
 
 
 @dataclasses.dataclass(frozen=True)
@@ -273,7 +293,13 @@ class SeqInterp:
         return AnalysisError(f'TS-SEQ: unsupported {what}: `{norm(node)[:90]}` (token_store.py:{getattr(node, "lineno", "?")})')
 
     # -- calls ------------------------------------------------------------------
+    def all_blocks(self) -> list:
+        st = getattr(self, 'root_store', None)
+        return list(st.blocks) if st is not None else []
+
     def call_function(self, fn: FuncInfo, args: list, kwargs: dict) -> Any:
+        if args and isinstance(args[0], Store) and getattr(self, 'root_store', None) is None:
+            self.root_store = args[0]
         params = list(fn.params)
         env: dict[str, Any] = {}
         for name, v in zip(params, args):
@@ -345,6 +371,9 @@ class SeqInterp:
             raise _Return(self.expr(st.value, env) if st.value is not None else None)
         elif isinstance(st, ast.Raise):
             if self.abstract:
+                # a refusal inside a summarised loop (the "already in a store" gate): it must come before the store is touched
+                if getattr(self, 'mutations', 0) and getattr(self, 'late_raise', None) is None:
+                    self.late_raise = f'`{norm(st)[:60]}` (line {getattr(st, "lineno", "?")}) can refuse after {self.mutations} write(s) to the store / its tokens'
                 return
             raise _Raised()
         elif isinstance(st, ast.Delete):
@@ -376,7 +405,7 @@ class SeqInterp:
             self.uid += 1
             var: Any = RangeVar(it.lo, it.hi, self.uid)
         elif isinstance(it, tuple):
-            var = TokElem(None, None)
+            var = SeqElem(it)
         elif isinstance(it, TokensRef):
             var = TokElem(it.block, None)
         else:
@@ -461,6 +490,8 @@ class SeqInterp:
             raise self.err(t, 'assignment target')
 
     def setattr_(self, base: Any, attr: str, v: Any, node: ast.AST) -> None:
+        if isinstance(base, (Block, Store, TokElem, SeqElem, TokensRef, SizeRef)):
+            self.mutations = getattr(self, 'mutations', 0) + 1
         if isinstance(base, Block):
             if attr == 'index':
                 base.index = v
@@ -487,6 +518,19 @@ class SeqInterp:
                 base.blocks = v
             else:
                 raise self.err(node, f'write to store attribute {attr}')
+        elif isinstance(base, SeqElem):
+            if attr != 'store_handle':
+                raise self.err(node, f'write to token attribute {attr}')
+            if v is not None:
+                raise self.err(node, 'handles assigned in a loop over a computed token sequence')
+            # handles cleared over every piece that is (a slice of) the unchanged content of a block of the store
+            blocks = {b.name: b for b in self.all_blocks()}
+            for piece in base.pieces:
+                if piece[0] == 'atom' and piece[1] in blocks and blocks[piece[1]].tokens == (piece,):
+                    self.cleared.append((piece[1], 0, seq_len((piece,))))
+                elif piece[0] == 'slice' and len(piece[1]) == 1 and piece[1][0][0] == 'atom' and piece[1][0][1] in blocks \
+                        and blocks[piece[1][0][1]].tokens == piece[1]:
+                    self.cleared.append((piece[1][0][1], 0 if piece[2] is None else piece[2], seq_len(piece[1]) if piece[3] is None else piece[3]))
         elif isinstance(base, TokElem):
             if attr != 'store_handle':
                 raise self.err(node, f'write to token attribute {attr}')
@@ -642,6 +686,8 @@ class SeqInterp:
                 return sym(e.id)
             if e.id in ('_StoreBlock', '_StoreHandle', 'len', 'range', 'list', 'isinstance', '_build_blocks', 'Position', 'enumerate', 'tuple'):
                 return ('builtin', e.id)
+            if e.id in self.ts.funcs and '.' not in e.id:
+                return ('function', self.ts.funcs[e.id])         # a module-level helper of token_store.py: interpreted like a method
             raise self.err(e, 'name')
         if isinstance(e, ast.Attribute):
             base = self.expr(e.value, env)
@@ -777,7 +823,7 @@ class SeqInterp:
             return BoundMethod(base, attr)
         if isinstance(base, TokensRef) and attr in ('extend', 'clear', 'copy'):
             return BoundMethod(base, attr)
-        if isinstance(base, (TokElem, Unk, SizeRef)):
+        if isinstance(base, (TokElem, SeqElem, Unk, SizeRef)):
             return UNK
         if isinstance(base, HandleV):
             if attr == 'block':
@@ -793,11 +839,35 @@ class SeqInterp:
         return Block(store, index, tokens, clean, f'new{self.fresh}')
 
     def call(self, e: ast.Call, env: dict) -> Any:
+        if isinstance(e.func, ast.Name) and e.func.id == 'sum' and e.func.id not in env and e.args and not e.keywords:
+            total: Any = self.expr(e.args[1], env) if len(e.args) > 1 else 0
+            a0 = e.args[0]
+            if isinstance(a0, (ast.GeneratorExp, ast.ListComp)) and len(a0.generators) == 1 and not a0.generators[0].ifs:
+                it_ = self.expr(a0.generators[0].iter, env)
+                if isinstance(it_, RangeV) and isinstance(it_.lo, int) and isinstance(it_.hi, int):
+                    items: list = list(range(it_.lo, it_.hi))
+                elif isinstance(it_, list):
+                    items = list(it_)
+                else:
+                    raise self.err(e, 'sum over a symbolic iterable')
+                for x in items:
+                    en = dict(env)
+                    self.assign(a0.generators[0].target, x, en)
+                    total = add(total, self.expr(a0.elt, en))
+                return total
+            v = self.expr(a0, env)
+            if isinstance(v, list):
+                for x in v:
+                    total = add(total, x)
+                return total
+            raise self.err(e, 'sum()')
         f = self.expr(e.func, env)
         if any(isinstance(a, ast.Starred) for a in e.args) or any(k.arg is None for k in e.keywords):
             raise self.err(e, 'star arguments')
         args = [self.expr(a, env) for a in e.args]
         kwargs = {k.arg: self.expr(k.value, env) for k in e.keywords}
+        if isinstance(f, tuple) and len(f) == 2 and f[0] == 'function':
+            return self.call_function(f[1], args, kwargs)
         if isinstance(f, BoundMethod):
             r = f.recv
             if isinstance(r, Store):
@@ -964,6 +1034,10 @@ def rule_ts_seq(ctx: RuleContext, ts: TS, rid: str, max_blocks: int = 4, kinds: 
             if outcome == 'raised':
                 n_refused += 1
             elif problem is None:
+                if getattr(it, 'late_raise', None):
+                    problem = ('refusal', f'{it.late_raise}: when the call is refused the removed tokens have already lost their handles (they are still '
+                                          f'listed in their block, but get_index / get_position / a later text change no longer find them)')
+            if outcome != 'raised' and problem is None:
                 problem = _judge(store, expected, add(add(len0, seq_len(ins)), removed, -1))
                 if problem is None:
                     if si == ei:
@@ -995,7 +1069,7 @@ def rule_ts_seq(ctx: RuleContext, ts: TS, rid: str, max_blocks: int = 4, kinds: 
             raise AnalysisError(f'TS-SEQ: {need} was never reached from _splice in any explored path (anchor moved?)')
     if n_paths < 100:
         raise AnalysisError(f'TS-SEQ: only {n_paths} paths explored (>= 100 on the confirmed tree)')
-    for kind in kinds or ['sequence', 'index', 'handles', 'sizes', 'len', 'detach']:
+    for kind in kinds or ['sequence', 'index', 'handles', 'sizes', 'len', 'detach', 'refusal']:
         if kind in found:
             msg, path = found[kind]
             ctx.fail(rid, 'token_store:TokenStore._splice', kind, msg, f'{ts.m.relpath}:{entry.node.lineno}', path)
